@@ -19,7 +19,7 @@ import (
 //
 //	row  = (function, field, kind R|W|A(ddress taken)|I(nitialised in the composite literal of a fresh object),
 //	        locks held: M = the muxer mutex (Muxer.mutex; muxerStream.mutex is a pointer to it — checked),
-//	                    S = muxerServer.mutex (r|w), F = fileDisk.mutex (exists only once F14b is repaired),
+//	                    S = muxerServer.mutex (r|w), F = fileDisk.mutex (since fix-F14b),
 //	        role: init (reachable from Muxer.Start), writer (Muxer.Write*), handler (Muxer.Handle and every
 //	              function registered with registerPath), close (Muxer.Close))
 //
@@ -55,7 +55,7 @@ var accTracked = map[string][]string{
 var accLockOf = map[string]string{
 	"Muxer.mutex":          "M",
 	"muxerStream.mutex":    "M",
-	"muxerSegmenter.mutex": "M", // exists only once F14a is repaired (repo_patches/fix-F14a.diff)
+	"muxerSegmenter.mutex": "M", // since fix-F14a (absent on older trees: the write* rows then hold no lock)
 	"muxerServer.mutex":    "S",
 	"fileDisk.mutex":       "F",
 }
